@@ -22,22 +22,24 @@ Record api : Type := mkApi {
   a_lcd : option (Z * Z);           (* localDict.cdict : (content, parameters it was digested with) *)
   a_cdict : option (Z * Z);         (* cctx->cdict : the local one or a referenced one *)
   a_prefix : option Z;              (* prefixDict.dict *)
-  a_collect : bool                  (* seqCollector.collectSequences *)
+  a_collect : bool;                 (* seqCollector.collectSequences *)
+  a_buf : bool                      (* round 3: cctx->bufferedPolicy == ZSTDb_buffered, i.e. the last ZSTD_resetCCtx_internal
+                                       reserved the stream buffers (possibly of size 0 in the stable-buffer modes) *)
 }.
 
-Definition a_fresh : api := mkApi SInit 0 None None None None false.
+Definition a_fresh : api := mkApi SInit 0 None None None None false false.
 
 Definition is_init (s : api) : bool := match a_stage s with SInit => true | SLoad => false end.
 
 (* ZSTD_clearAllDicts *)
 Definition clear_dicts (s : api) : api :=
-  mkApi (a_stage s) (a_params s) None None None None (a_collect s).
+  mkApi (a_stage s) (a_params s) None None None None (a_collect s) (a_buf s).
 
 (* ZSTD_initLocalDict *)
 Definition init_local_dict (s : api) : api :=
   match a_ldict s, a_lcd s with
   | Some d, None => let c := Some (d, a_params s) in
-                    mkApi (a_stage s) (a_params s) (a_ldict s) c c (a_prefix s) (a_collect s)
+                    mkApi (a_stage s) (a_params s) (a_ldict s) c c (a_prefix s) (a_collect s) (a_buf s)
   | _, _ => s
   end.
 
@@ -52,18 +54,20 @@ Definition view_of (s : api) : dict_view :=
 (* ZSTD_CCtx_init_compressStream2 : local dict digested if needed, prefix consumed, stage leaves init *)
 Definition frame_start (s : api) : api :=
   let s1 := init_local_dict s in
-  mkApi SLoad (a_params s1) (a_ldict s1) (a_lcd s1) (a_cdict s1) None (a_collect s1).
+  mkApi SLoad (a_params s1) (a_ldict s1) (a_lcd s1) (a_cdict s1) None (a_collect s1) true.
 (* the dictionary the frame started by [frame_start s] uses (the prefix is read before it is cleared) *)
 Definition frame_view (s : api) : dict_view := view_of (init_local_dict s).
 
 (* ZSTD_CCtx_reset(session_only) *)
 Definition reset_session (s : api) : api :=
-  mkApi SInit (a_params s) (a_ldict s) (a_lcd s) (a_cdict s) (a_prefix s) (a_collect s).
+  mkApi SInit (a_params s) (a_ldict s) (a_lcd s) (a_cdict s) (a_prefix s) (a_collect s) (a_buf s).
 
 Definition set_collect (s : api) (b : bool) : api :=
-  mkApi (a_stage s) (a_params s) (a_ldict s) (a_lcd s) (a_cdict s) (a_prefix s) b.
+  mkApi (a_stage s) (a_params s) (a_ldict s) (a_lcd s) (a_cdict s) (a_prefix s) b (a_buf s).
+Definition set_buf (s : api) (b : bool) : api :=
+  mkApi (a_stage s) (a_params s) (a_ldict s) (a_lcd s) (a_cdict s) (a_prefix s) (a_collect s) b.
 Definition set_params (s : api) (p : Z) : api :=
-  mkApi (a_stage s) p (a_ldict s) (a_lcd s) (a_cdict s) (a_prefix s) (a_collect s).
+  mkApi (a_stage s) p (a_ldict s) (a_lcd s) (a_cdict s) (a_prefix s) (a_collect s) (a_buf s).
 
 Inductive aop : Type :=
 | ASet (auth : bool) (p : Z)        (* ZSTD_CCtx_setParameter -> new identity p; auth = ZSTD_isUpdateAuthorized(param) *)
@@ -76,8 +80,11 @@ Inductive aop : Type :=
 | AStreamCall                       (* ZSTD_compressStream2 that does not complete the frame *)
 | AStreamEnd                        (* ZSTD_compressStream2(e_end) completing the frame / ZSTD_compressSequences *)
 | ACompress2                        (* ZSTD_compress2, successful *)
-| ASimple                           (* ZSTD_compressCCtx, _usingDict, _usingCDict, _advanced, Begin/Continue/End, copyCCtx *)
-| AGenSeq.                          (* ZSTD_generateSequences, successful *)
+| ASimple                           (* ZSTD_compressCCtx, _usingDict, _usingCDict, _advanced, Begin/Continue/End: everything that
+                                       goes through ZSTD_compressBegin_internal(ZSTDb_not_buffered) *)
+| AGenSeq                           (* ZSTD_generateSequences, successful *)
+| ACopyInto.                        (* round 3: ZSTD_copyCCtx with THIS context as destination (ZSTD_copyCCtx_internal calls
+                                       ZSTD_resetCCtx_internal directly) *)
 
 Definition stream_call (s : api) : api := if is_init s then frame_start s else s.
 Definition compress2 (s : api) : api := reset_session (frame_start (reset_session s)).
@@ -90,15 +97,15 @@ Definition astep (s : api) (o : aop) : api * bool :=
                  then (set_params s p, true) else (s, false)
   | ALoad d => if is_init s then
                  let c := clear_dicts s in
-                 (if d =? 0 then c else mkApi (a_stage c) (a_params c) (Some d) None None None (a_collect c), true)
+                 (if d =? 0 then c else mkApi (a_stage c) (a_params c) (Some d) None None None (a_collect c) (a_buf c), true)
                else (s, false)
   | ARefCDict c => if is_init s then
                      let k := clear_dicts s in
-                     (mkApi (a_stage k) (a_params k) None None c None (a_collect k), true)
+                     (mkApi (a_stage k) (a_params k) None None c None (a_collect k) (a_buf k), true)
                    else (s, false)
   | APrefix d => if is_init s then
                    let c := clear_dicts s in
-                   (if d =? 0 then c else mkApi (a_stage c) (a_params c) None None None (Some d) (a_collect c), true)
+                   (if d =? 0 then c else mkApi (a_stage c) (a_params c) None None None (Some d) (a_collect c) (a_buf c), true)
                  else (s, false)
   | APledge => if is_init s then (s, true) else (s, false)
   | AResetSession => (reset_session s, true)
@@ -106,12 +113,23 @@ Definition astep (s : api) (o : aop) : api * bool :=
   | AStreamCall => (stream_call s, true)
   | AStreamEnd => (reset_session (stream_call s), true)
   | ACompress2 => (compress2 s, true)
-  | ASimple => (s, true)
+  | ASimple => (set_buf (reset_session s) false, true)   (* since 38ec6ea: a single-call / buffer-less session closes an open streaming frame *)
+  | ACopyInto => (set_buf (reset_session s) false, true)   (* since d3967a5: the copy is a buffer-less session too *)
   | AGenSeq => (set_collect (compress2 (set_collect s true)) false, true)
   end.
 
 Fixpoint arun (s : api) (ops : list aop) : api :=
   match ops with [] => s | o :: t => arun (fst (astep s o)) t end.
+
+(* round 3: ZSTD_copyCCtx_internal before d3967a5: streamStage of the destination was not touched
+   (finding copyCCtx-into-open-stream-keeps-stage) *)
+Definition astep_pred39 (s : api) (o : aop) : api * bool :=
+  match o with ACopyInto => (set_buf s false, true) | _ => astep s o end.
+Fixpoint arun_pred39 (s : api) (ops : list aop) : api :=
+  match ops with [] => s | o :: t => arun_pred39 (fst (astep_pred39 s o)) t end.
+(* ZSTD_compressBegin_internal before 38ec6ea: the single-call entry points left streamStage alone *)
+Definition astep_pre38 (s : api) (o : aop) : api * bool :=
+  match o with ASimple => (set_buf s false, true) | _ => astep s o end.
 
 (* ZSTD_generateSequences as it was before 74b576b: the collector stays armed *)
 Definition astep_old (s : api) (o : aop) : api * bool :=
@@ -125,6 +143,13 @@ Definition ob (b : bool) : Z := if b then 1 else 0.
 Definition os {A} (o : option A) : Z := match o with Some _ => 1 | None => 0 end.
 Definition api_fields (s : api) : list Z :=
   [ob (negb (is_init s)); os (a_ldict s); os (a_lcd s); os (a_cdict s); os (a_prefix s); ob (a_collect s)].
+(* round 3: the same plus bufferedPolicy *)
+Definition api_fields3 (s : api) : list Z := api_fields s ++ [ob (a_buf s)].
+Fixpoint atrace3 (s : api) (ops : list aop) : list Z :=
+  match ops with
+  | [] => []
+  | o :: t => let r := astep s o in (ob (snd r) :: api_fields3 (fst r)) ++ atrace3 (fst r) t
+  end.
 Fixpoint atrace (s : api) (ops : list aop) : list Z :=
   match ops with
   | [] => []
